@@ -112,6 +112,7 @@ type smFn struct {
 	names                 map[types.Object]string
 	used                  map[string]bool
 	slVar                 map[types.Object]bool // slice-typed locals that hold an `Sl` (defined from a field's re-slice)
+	floatDef              map[types.Object][2]int64 // float64 locals `x := float64(n) / c` (c = num/den): the Lean variable holds n
 	ntmp, nloop           int
 	inLoop                bool
 	loopK                 func(d int)
@@ -763,6 +764,9 @@ func (f *smFn) simple(s ast.Stmt, d int) {
 		f.assignTo(st.X, f.arith(st, op, f.info().TypeOf(st.X), f.expr(st.X, d), "1", d), d)
 	case *ast.DeclStmt:
 		gd := st.Decl.(*ast.GenDecl)
+		if gd.Tok == token.CONST { // a local constant: every use is a constant of the type checker
+			return
+		}
 		if gd.Tok != token.VAR {
 			f.fail(st, "declaration")
 		}
@@ -841,6 +845,34 @@ func (f *smFn) assign(st *ast.AssignStmt, d int) {
 				f.fail(st, "assignment to the pointer-typed field %s", f.src(l))
 			}
 			f.assignTo(sel.X, fmt.Sprintf("{ %s with %s := some %s }", f.expr(sel.X, d), sel.Sel.Name, atom(f.newCall(call))), d)
+			return
+		}
+	}
+	// a float64 local `x := float64(n) / c` that is never assigned again: the Lean variable holds n, `uint64(x)` is f64DivToU64
+	if id, ok := l.(*ast.Ident); ok && st.Tok == token.DEFINE {
+		if n, num, den, ok := f.floatQuot(st.Rhs[0]); ok {
+			o := f.info().Defs[id]
+			ast.Inspect(f.fd.Body, func(x ast.Node) bool {
+				switch a := x.(type) {
+				case *ast.AssignStmt:
+					for _, lh := range a.Lhs {
+						if li, ok := lh.(*ast.Ident); ok && a != st && f.info().Uses[li] == o {
+							f.fail(a, "the float variable %s is assigned again", id.Name)
+						}
+					}
+				case *ast.IncDecStmt:
+					if li, ok := a.X.(*ast.Ident); ok && f.info().Uses[li] == o {
+						f.fail(a, "the float variable %s is assigned again", id.Name)
+					}
+				case *ast.UnaryExpr:
+					if li, ok := a.X.(*ast.Ident); ok && a.Op == token.AND && f.info().Uses[li] == o {
+						f.fail(a, "the address of the float variable %s is taken", id.Name)
+					}
+				}
+				return true
+			})
+			f.emit(d, "let %s := %s", f.nameOf(o), f.expr(n, d))
+			f.floatDef[o] = [2]int64{num, den}
 			return
 		}
 	}
@@ -1520,6 +1552,31 @@ func (f *smFn) binary(x *ast.BinaryExpr, d int) string {
 	return ""
 }
 
+// `float64(n) / c` with n an integer expression and c a positive constant num/den
+func (f *smFn) floatQuot(e ast.Expr) (n ast.Expr, num, den int64, ok bool) {
+	q, isQ := smUnparen(e).(*ast.BinaryExpr)
+	if !isQ || q.Op != token.QUO {
+		return nil, 0, 0, false
+	}
+	ctv := f.info().Types[q.Y]
+	fc, isConv := smUnparen(q.X).(*ast.CallExpr)
+	if ctv.Value == nil || !isConv || len(fc.Args) != 1 {
+		return nil, 0, 0, false
+	}
+	ftv, isT := f.info().Types[smUnparen(fc.Fun)]
+	b, isB := types.Unalias(f.info().TypeOf(fc)).(*types.Basic)
+	if !isT || !ftv.IsType() || !isB || b.Kind() != types.Float64 || f.kindOf(fc.Args[0]) != smInt {
+		return nil, 0, 0, false
+	}
+	cv := constant.ToFloat(ctv.Value)
+	nu, okN := constant.Int64Val(constant.Num(cv))
+	de, okD := constant.Int64Val(constant.Denom(cv))
+	if !okN || !okD || nu <= 0 || de <= 0 {
+		return nil, 0, 0, false
+	}
+	return fc.Args[0], nu, de, true
+}
+
 // `T(x)`
 func (f *smFn) conversion(call *ast.CallExpr, d int) string {
 	to := f.info().TypeOf(call)
@@ -1531,20 +1588,13 @@ func (f *smFn) conversion(call *ast.CallExpr, d int) string {
 		if f.t.kind(from) == smInt {
 			return fmt.Sprintf("wrap %s %s", it, atom(f.expr(arg, d)))
 		}
-		// uint64(float64(n) / c), c a constant
-		if q, ok := smUnparen(arg).(*ast.BinaryExpr); ok && q.Op == token.QUO {
-			ctv := f.info().Types[q.Y]
-			fc, isConv := smUnparen(q.X).(*ast.CallExpr)
-			if ctv.Value != nil && isConv && len(fc.Args) == 1 {
-				ftv, isT := f.info().Types[smUnparen(fc.Fun)]
-				if b, isB := types.Unalias(f.info().TypeOf(fc)).(*types.Basic); isT && ftv.IsType() && isB && b.Kind() == types.Float64 && f.kindOf(fc.Args[0]) == smInt {
-					cv := constant.ToFloat(ctv.Value)
-					num, okN := constant.Int64Val(constant.Num(cv))
-					den, okD := constant.Int64Val(constant.Denom(cv))
-					if okN && okD && num > 0 && den > 0 {
-						return fmt.Sprintf("f64DivToU64 %s %d %d", atom(f.expr(fc.Args[0], d)), num, den)
-					}
-				}
+		// uint64(float64(n) / c), c a constant — directly or through a float local
+		if n, num, den, ok := f.floatQuot(arg); ok {
+			return fmt.Sprintf("f64DivToU64 %s %d %d", atom(f.expr(n, d)), num, den)
+		}
+		if id, ok := smUnparen(arg).(*ast.Ident); ok {
+			if nd, ok := f.floatDef[f.info().Uses[id]]; ok {
+				return fmt.Sprintf("f64DivToU64 %s %d %d", f.nameOf(f.info().Uses[id]), nd[0], nd[1])
 			}
 		}
 	case smStr:
@@ -1779,7 +1829,7 @@ func (f *smFn) call(call *ast.CallExpr, d int) []string {
 
 func (t *smTr) translate(lean string, fd *ast.FuncDecl, pk *packages.Package) (text string, why string) {
 	obj := pk.TypesInfo.Defs[fd.Name].(*types.Func)
-	f := &smFn{t: t, pk: pk, lean: lean, fd: fd, sig: obj.Type().(*types.Signature), names: map[types.Object]string{}, used: map[string]bool{}, slVar: map[types.Object]bool{}}
+	f := &smFn{t: t, pk: pk, lean: lean, fd: fd, sig: obj.Type().(*types.Signature), names: map[types.Object]string{}, used: map[string]bool{}, slVar: map[types.Object]bool{}, floatDef: map[types.Object][2]int64{}}
 	nstructs, ntables := len(t.structs), len(t.tables)
 	sdone, tdone := map[string]bool{}, map[string]int{}
 	for k := range t.sdone {
